@@ -32,6 +32,8 @@ type C20 struct {
 	Seq  bool   `json:"sequential_exhaustive,omitempty"` // leg X: all sequential histories up to SeqLen
 	SeqN int    `json:"seq_len,omitempty"`
 	Leg  string `json:"leg,omitempty"`
+	// Rounds: (leg R) every repetition runs on a fresh queue and its history is checked on its own
+	Rounds bool `json:"rounds,omitempty"`
 	Reps int    `json:"reps,omitempty"` // mode R: repetitions of the op lists
 	Long int    `json:"long,omitempty"` // one long seeded sequential history of this many operations
 }
@@ -47,6 +49,7 @@ func genC20(seed uint64, run int, tier string) Scenario {
 		sc.Uncontrol = true
 		sc.Class = "queue/race"
 		sc.Reps = 200
+		sc.Rounds = run%2 == 1
 	} else if run == 0 {
 		sc.Seq = true
 		sc.SeqN = 6
@@ -63,6 +66,19 @@ func genC20(seed uint64, run int, tier string) Scenario {
 			sc.Long = between(r, 40000, 120000)
 		}
 		sc.Class = "queue/long"
+
+		return sc
+	}
+	if r.IntN(6) == 0 {
+		// the consumer only watches the depth while the producer fills the queue: every look has
+		// to count exactly the enqueues that completed before it (and may count the one in flight)
+		for i, np := 0, between(r, 3, 13); i < np; i++ {
+			sc.Prod = append(sc.Prod, QOp{Op: "enq", Empty: r.IntN(8) == 0})
+		}
+		for i, nc := 0, between(r, 4, 20); i < nc; i++ {
+			sc.Cons = append(sc.Cons, QOp{Op: "depth"})
+		}
+		sc.Class += "/watch"
 
 		return sc
 	}
@@ -159,6 +175,23 @@ func runC20(env *Env, s Scenario) {
 
 		return
 	}
+	if sc.Uncontrol && sc.Rounds {
+		// every repetition is a life of its own: a fresh queue, a short history, the
+		// linearizability check
+		for rep := 0; rep < sc.Reps && len(env.Res.Violations) == 0; rep++ {
+			runC20Body(env, sc, rep, 1)
+		}
+
+		return
+	}
+	reps := 1
+	if sc.Uncontrol && sc.Reps > 0 {
+		reps = sc.Reps
+	}
+	runC20Body(env, sc, 0, reps)
+}
+
+func runC20Body(env *Env, sc *C20, round, reps int) {
 	q := util.NewQueue()
 	var seq atomic.Int64
 	var mu sync.Mutex
@@ -170,10 +203,6 @@ func runC20(env *Env, s Scenario) {
 		mu.Unlock()
 	}
 	var produced, got [][]byte
-	reps := 1
-	if sc.Uncontrol && sc.Reps > 0 {
-		reps = sc.Reps
-	}
 	yield := func(p string) {
 		if !sc.Uncontrol {
 			env.K.Yield(p)
@@ -182,7 +211,7 @@ func runC20(env *Env, s Scenario) {
 	prod := func() {
 		for rep := 0; rep < reps; rep++ {
 			for i := range sc.Prod {
-				v := fmt.Sprintf("<p%d.%d>", rep, i)
+				v := fmt.Sprintf("<p%d.%d>", round+rep, i)
 				if sc.Prod[i].Empty {
 					v = ""
 				}
@@ -264,8 +293,10 @@ func runC20(env *Env, s Scenario) {
 	if sc.Uncontrol {
 		var wg sync.WaitGroup
 		wg.Add(2)
-		go func() { defer wg.Done(); guard("producer", prod)() }()
-		go func() { defer wg.Done(); guard("consumer", cons)() }()
+		start := make(chan struct{})
+		go func() { defer wg.Done(); <-start; guard("producer", prod)() }()
+		go func() { defer wg.Done(); <-start; guard("consumer", cons)() }()
+		close(start)
 		wg.Wait()
 		env.Res.Nontrivial = true
 		env.Res.Shape = fmt.Sprintf("race p=%d c=%d reps=%d", len(sc.Prod), len(sc.Cons), reps)
